@@ -330,7 +330,7 @@ int main(int argc, char** argv)
         std::string const& op = ops[oi];
         g_curop = oi;
         g_curkind = op.substr(0, 2);
-        g_deadline_ms = now_ms() + 30000;
+        g_deadline_ms = now_ms() + 20000;
         std::string resp = "?";
         try
         {
@@ -536,7 +536,7 @@ int main(int argc, char** argv)
         std::printf("RESP %s %d %s %s\n", g_id.c_str(), oi, op.substr(0, 2).c_str(), resp.c_str());
         std::fflush(stdout);
     }
-    g_deadline_ms = now_ms() + 30000;
+    g_deadline_ms = now_ms() + 20000;
     g_curop = 999;
     g_curkind = "end";
     std::string all;
